@@ -75,6 +75,23 @@ example (r : Out) : Eval lib ex2 r ↔ r = .err ⟨"ValueError", "V-1"⟩ ∨ r 
   rw [evalAll_exact lib 10 ex2 (by rw [hs]; simp) r, hs]
   simp
 
+/-- ... whereas `catch_all` over the same two terms waits for all of them and re-raises the first error in TERM order:
+exactly one outcome, whatever the completion order (`wait_promises`, not `Promise.all`) -/
+def ex3 : Expr := .catchAll ex2 .none .none
+
+example : evalAll lib 10 ex3 = [.err ⟨"ValueError", "V-1"⟩] := by rfl
+example (r : Out) : Eval lib ex3 r ↔ r = .err ⟨"ValueError", "V-1"⟩ := by
+  have hs : evalAll lib 10 ex3 = [.err ⟨"ValueError", "V-1"⟩] := by rfl
+  rw [evalAll_exact lib 10 ex3 (by rw [hs]; simp) r, hs]
+  simp
+
+/-- with a recover task and an error class that does not cover them: the first NON-MATCHING error in term order -/
+def ex4 : Expr :=
+  .catchAll (L [tcall "ev.raiser" [.str "K", .int 1], tcall "ev.raiser" [.str "V", .int 2], tcall "ev.raiser" [.str "L", .int 3]])
+    (.cls "ValueError") (.taskv "ev.rec_count")
+
+example : evalFuel lib 10 ex4 = some (.err ⟨"KeyError", "K-1"⟩) := by rfl
+
 /-- an untaken `cond` branch is not demanded -/
 example : evalFuel lib 10 (.cond [.bool true, .int 1, tcall "ev.raiser" [.str "V", .int 2]]) = some (.ok (.int 1)) := by rfl
 
